@@ -171,6 +171,93 @@ def templates(rng):
     return [t if len(t) == 4 else t + (False,) for t in T]
 
 
+def type_queries(out):
+    """autograd.builtins.isinstance / type answer, for a value traced at nesting depth 0..3 (any mode sequence),
+    exactly as Python's isinstance / type answer for the plain value"""
+    import itertools
+    import autograd.builtins as ab
+    from autograd import make_jvp as mjvp
+
+    classes = [("float", float), ("int", int), ("complex", complex), ("ndarray", onp.ndarray), ("tuple", tuple), ("list", list),
+               ("dict", dict), ("ag-tuple", ab.tuple), ("ag-list", ab.list), ("ag-dict", ab.dict), ("str", str),
+               ("float-or-ndarray", (float, onp.ndarray)), ("float64", onp.float64), ("number", (int, float, complex))]
+
+    def probe(v):
+        r = [bool(ab.isinstance(v, c)) for _, c in classes]
+        t = ab.type(v)
+        r += [t is float, t is onp.ndarray, t is onp.float64, t is tuple, t is list, t is dict]
+        return r
+
+    def plain_probe(v):
+        r = [isinstance(v, (tuple if c is ab.tuple else list if c is ab.list else dict if c is ab.dict else c))
+             for _, c in classes]
+        t = type(v)
+        r += [t is float, t is onp.ndarray, t is onp.float64, t is tuple, t is list, t is dict]
+        return r
+
+    values = [("float", 1.5), ("array1", onp.array([1.0, 2.0])), ("array2", onp.array([[1.0, 2.0], [3.0, 4.0]])),
+              ("array0", onp.array(2.5)), ("tuple", (1.5, onp.array([1.0, 2.0]))), ("list", [onp.array([1.0]), 2.0]),
+              ("dict", {"a": 1.5, "b": onp.array([1.0, 2.0])})]
+
+    def nest(modes, v, seen):
+        """evaluate probe on v combined with one fresh variable per level"""
+        if not modes:
+            inner = v
+            while isbox(inner):
+                inner = inner._value
+            seen.append((probe(v), plain_probe(inner)))
+            return 0.0
+        m = modes[0]
+
+        def body(z):
+            if isinstance(v, (tuple, list, dict)) or ab.isinstance(v, (tuple, list, dict)):
+                w = v                                    # containers: traced through their own (outer) level only
+            else:
+                w = v * z
+            nest(modes[1:], w, seen)
+            return z * 1.0
+        if m == "rev":
+            grad(body)(1.0)
+        else:
+            mjvp(body)(1.0)(1.0)
+        return 0.0
+    for name, v in values:
+        want = plain_probe(v)
+        for depth in range(0, 4):
+            for modes in itertools.product(["rev", "fwd"], repeat=depth):
+                out["n"] += 1
+                out["keys"].append("type-query/%s/%s" % (name, "-".join(modes) or "plain"))
+                out["dist"]["type-queries"] = out["dist"].get("type-queries", 0) + 1
+                seen = []
+                try:
+                    if isinstance(v, (tuple, list, dict)) and depth >= 1:
+                        # a container as the differentiated argument of the outermost operator
+                        def outer(c, modes=modes):
+                            nest(modes[1:], c, seen)
+                            leaves = c.values() if ab.isinstance(c, dict) else c
+                            return sum(anp.sum(t) for t in leaves)
+                        if modes[0] == "rev":
+                            grad(outer)(v)
+                        else:
+                            continue
+                    else:
+                        nest(list(modes), v, seen)
+                except Exception as ex:
+                    out["bad"].append({"oracle": "type-queries", "case": name, "modes": list(modes), "problems": ["raised: %r" % (ex,)],
+                                       "site": {"wrapper": "isinstance/type"}})
+                    continue
+                if seen:
+                    want = seen[0][1]
+                    seen = [seen[0][0]]
+                if not seen or seen[0] != want:
+                    names = [n for n, _ in classes] + ["type is float", "type is ndarray", "type is float64", "type is tuple",
+                                                       "type is list", "type is dict"]
+                    diff = [names[i] for i in range(len(want)) if seen and seen[0][i] != want[i]]
+                    out["bad"].append({"oracle": "type-queries", "case": name, "modes": list(modes),
+                                       "problems": ["autograd's isinstance/type answers differently under tracing for: %s" % diff],
+                                       "site": {"wrapper": "isinstance/type"}})
+
+
 def main():
     cfg = json.load(sys.stdin)
     rng = random.Random(cfg["seed"])
@@ -230,6 +317,7 @@ def main():
             if probs:
                 out["bad"].append({"oracle": "wrapper-vs-numpy", "case": name, "x": x0.tolist(),
                                    "problems": probs, "site": {"wrapper": name}})
+    type_queries(out)
     out["keys"] = sorted(set(out["keys"]))
     print(json.dumps(out, default=str))
 
